@@ -407,6 +407,33 @@ def check_fill_in(ctx):
                    'eliminating `%s`: the pairs of its neighbours are computed but never added to a graph inside the loop, so later '
                    'eliminations do not see earlier fill-in edges' % node, construct='working graph of the elimination')
             return
+    direct_tri = None
+    if len(adds) == 2:
+        # the fill-in of a node goes into BOTH graphs inside the loop: the working graph (whose neighbourhoods later eliminations read) and the
+        # triangulated graph that is returned.  One collection feeds two consumers, so it must be re-iterable
+        src_loop = next((l_ for l_ in ast.walk(fi.node) if isinstance(l_, ast.For) and isinstance(l_.target, ast.Name) and l_.target.id == node), None)
+        raw_calls = [c for c in ast.walk(src_loop) if isinstance(c, ast.Call) and isinstance(c.func, ast.Attribute) and c.func.attr == 'add_edges_from'] if src_loop else []
+        names_ = {U(c.args[0]) for c in raw_calls if c.args and isinstance(c.args[0], ast.Name)}
+        if len(raw_calls) == 2 and len(names_) == 1:
+            F_ = names_.pop()
+            fdefs = [a.value for a in ast.walk(src_loop) if isinstance(a, ast.Assign) and len(a.targets) == 1 and U(a.targets[0]) == F_]
+            if len(fdefs) == 1:
+                reiter = isinstance(fdefs[0], ast.Call) and U(fdefs[0].func) in ('list', 'set', 'tuple', 'sorted', 'frozenset')
+                if not reiter and isinstance(fdefs[0], ast.Call) and U(fdefs[0].func).endswith('combinations'):
+                    first, second = raw_calls
+                    ctx.ob('elimination-fill-in', fi, second, False,
+                           '`%s = %s` is a one-shot iterator handed to two graphs: `%s` consumes it, `%s` receives nothing - %s'
+                           % (F_, U(fdefs[0])[:60], U(first.func.value), U(second.func.value),
+                              'the working graph never gets the fill-in, later eliminations do not see it' if True else ''),
+                           construct='fill-in shared by two graphs')
+                    return
+                if reiter:
+                    nbg = {U(n_.func.value) for n_ in ast.walk(fdefs[0]) if isinstance(n_, ast.Call) and isinstance(n_.func, ast.Attribute) and n_.func.attr == 'neighbors'}
+                    work = [(s_, c) for s_, c in adds if U(c.func.value) in nbg]
+                    other = [(s_, c) for s_, c in adds if U(c.func.value) not in nbg]
+                    if len(work) == 1 and len(other) == 1:
+                        adds = work
+                        direct_tri = U(other[0][1].func.value)
     if len(adds) != 1:
         raise AnalysisError('_triangulated: expected one add_edges_from inside the elimination loop, found %d' % len(adds))
     add_stmt, add = adds[0]
@@ -482,6 +509,8 @@ def check_fill_in(ctx):
                           and U(c2.func.value) == a0.id and T(strip_wrappers(c2.args[0])) == T(pairs)]
                 aug = T(body_env.get(a0.id)) in ('%s|%s' % (a0.id, T(add.args[0])), '%s|%s' % (a0.id, T(pairs)), '%s|set(%s)' % (a0.id, T(pairs)))
                 acc_ok = acc_ok or bool(grown_) or aug
+        if direct_tri is not None and direct_tri == tri:
+            acc_ok = True          # every node's fill-in is added to the returned graph inside the loop
         ok = t_init is not None and T(t_init) in ('nx.Graph(self.graph)', 'self.graph.copy()') and acc_ok
         how = '`%s`, a copy of the model graph plus the accumulated fill-in edges' % tri
     ctx.ob('elimination-fill-in', fi, fi.node, ok, 'the triangulated graph returned must contain the model graph and every fill-in edge; returns %s' % how,
